@@ -188,6 +188,7 @@ def showRes : CRes → String
   | .bool b => if b then "b1" else "b0"
   | .raw => "r"
   | .void => "v"
+  | .taken m => if m.isSome then "s1" else "s0"
 
 def showFault : Fault → String
   | .useAfterFree => "use-after-free"
@@ -195,6 +196,7 @@ def showFault : Fault → String
   | .typeConfusion => "type-confusion"
   | .abort => "abort"
   | .rContract => "r-contract"
+  | .rType => "r-type"
   | .fuel => "fuel"
 
 def dropCounts (e : Env MiniR) : List Nat :=
